@@ -358,31 +358,40 @@ func (x *Exec) selectTerm(elems []*Term, idx *Term) *Term {
 	if n == 1 {
 		return elems[0]
 	}
-	// decision on bits, high to low, over the padded range
-	nbits := 0
-	for (1 << uint(nbits)) < n {
-		nbits++
-	}
-	var build func(lo, bit int) *Term
-	build = func(lo, bit int) *Term {
-		if lo >= n {
-			return nil
+	lo, hi := 0, n-1
+	if l, h, ok := x.tb.urange(idx); ok {
+		if l > uint64(lo) && l < uint64(n) {
+			lo = int(l)
 		}
-		if bit < 0 {
+		if h < uint64(hi) {
+			hi = int(h)
+		}
+	}
+	if lo > hi {
+		lo, hi = 0, n-1
+	}
+	// comparison tree over [lo,hi]; ranges with one repeated element collapse to that element
+	var build func(lo, hi int) *Term
+	build = func(lo, hi int) *Term {
+		same := true
+		for k := lo + 1; k <= hi; k++ {
+			if elems[k] != elems[lo] {
+				same = false
+				break
+			}
+		}
+		if same {
 			return elems[lo]
 		}
-		l := build(lo, bit-1)
-		h := build(lo+(1<<uint(bit)), bit-1)
-		if h == nil {
-			return l
-		}
+		mid := (lo + hi + 1) / 2
+		l := build(lo, mid-1)
+		h := build(mid, hi)
 		if l == h {
 			return l
 		}
-		c := x.tb.Eq(x.tb.Extract(idx, bit, bit), x.tb.Const(1, 1))
-		return x.tb.Ite(c, h, l)
+		return x.tb.Ite(x.tb.Ult(idx, x.tb.Const(idx.sort.W, uint64(mid))), l, h)
 	}
-	return build(0, nbits-1)
+	return build(lo, hi)
 }
 
 func (x *Exec) indexString(s strVal, idx *Term, it types.Type) value {
